@@ -8,7 +8,7 @@
    What the reader yields for damaged files (missing / wrong size) is the subject
    of C10/C20 and enters here as the item list. *)
 From Coq Require Import Lia.
-From Torf Require Import Base Extracted Corrupt CorruptProofs Pipeline PipelineProofs PipeExplore PipeExploreProofs PipeConfigs.
+From Torf Require Import Base Extracted Corrupt CorruptProofs Pipeline PipelineProofs FlowProofs PipeExplore PipeExploreProofs PipeConfigs VerifyTrueProofs.
 Open Scope Z_scope.
 
 (* a changed byte at stream position p inside file k: the content error for piece p / L names file k *)
@@ -32,6 +32,17 @@ Theorem C02_errors_reported : forall c s idx h exc ex,
   s_calls (collect_item c s idx h exc) = s_calls s ++ batch (zlen (s_seen s)) idx (map Some exc).
 Proof. exact collect_item_reports_errors. Qed.
 Print Assumptions C02_errors_reported.
+
+(* UNBOUNDED (every schedule, every number of hashers and pieces, with or without callback, any clock):
+   if all pieces of the content are readable -- the reader yields pieces with hashes [hs], as many as the
+   torrent records -- and verification returns True, then the content's piece hashes ARE the recorded ones.
+   Contrapositive: content in which any piece hashes differently (a changed, truncated-and-padded or
+   replaced byte range) is never verified successfully, whatever the threads do. *)
+Theorem C02_true_means_intact : forall c s expd hs,
+  reach c s -> cf_verify c = Some expd -> yielded (cf_items c) = map RPiece hs -> zlen hs = zlen expd ->
+  s_result s = Some ResTrue -> hs = expd.
+Proof. exact verify_true_means_intact. Qed.
+Print Assumptions C02_true_means_intact.
 
 (* under every schedule: intact content verifies; a corrupt piece gives a content error without callback
    and False with one; an item with a read error gives that error / False *)
